@@ -147,6 +147,14 @@ def replay(run, beh, rng, max_more, report_parse, report_eval, max_finished=10 *
             report_parse("repl-hang:" + buf,
                          f"repl-continuation: the parser fails with {detail} on {buf!r}; the loop keeps asking for more input",
                          {"kind": "repl", "lines": list(ls)})
+        elif cls in ("syntax", "ok") and len(got_prompts) == len(ls) + 1 and got_prompts[-1] == "+ ":
+            # the real parser has a verdict on the buffer - a syntax error that is not "Unexpected end of input",
+            # or a program - and the loop asks for another line instead of acting on it: whatever is typed next is
+            # glued to a text that is already decided (the hang of the property, seen from the keyboard)
+            report_parse("repl-hang:" + buf,
+                         f"repl-continuation: the parser's verdict on {buf!r} is {cls}{' (' + detail + ')' if detail else ''}; "
+                         f"the loop asks for more input instead of {'reporting it' if cls == 'syntax' else 'evaluating it'}",
+                         {"kind": "repl", "lines": list(ls)})
         else:
             run.drift("repl-prompts", {"lines": list(ls), "model": sorted(want), "prompts": got_prompts, "parser": cls})
         return True
